@@ -256,7 +256,9 @@ func betAmount(r *rand.Rand, s *pokerface.GameState, cp *pokerface.PlayerState, 
 	case personaManiac:
 		amt = cp.StackSize - int64(r.Intn(2))
 	default:
-		switch r.Intn(8) {
+		switch r.Intn(9) {
+		case 8:
+			amt = cp.StackSize + 1 + rnd63(r, 2*cp.StackSize+50) // clearly more than the player has
 		case 0:
 			amt = s.Status.MiniBet
 		case 1:
@@ -291,13 +293,18 @@ func raiseAmount(r *rand.Rand, s *pokerface.GameState, cp *pokerface.PlayerState
 		if r.Intn(6) == 0 {
 			amt = cw + 1
 		}
+		if r.Intn(6) == 0 {
+			amt = 2 * cw
+		}
 	case personaManiac:
 		amt = cp.InitialStackSize - int64(r.Intn(2))
 		if r.Intn(3) == 0 {
 			amt = cw + 2*prs + int64(r.Intn(50))
 		}
 	default:
-		switch r.Intn(9) {
+		switch r.Intn(10) {
+		case 9:
+			amt = 2 * cw // the minimum raise over an opening bet, whatever the engine recorded as its size
 		case 0:
 			amt = cw + prs
 		case 1:
